@@ -147,6 +147,9 @@ func (E *Engine) call(fr *Frame, st *State, cc *ssa.CallCommon, instr ssa.Instru
 		if cl, ok := E.closureByRef[c]; ok {
 			return E.callFn(fr, st, cl.fn, args, cl.bind, instr)
 		}
+		if v, ok := E.callThroughIte(fr, st, c, args, instr); ok {
+			return v
+		}
 		if E.pureFns[c] {
 			E.note("function-typed parameters of a //verif:pure-func-params contract are pure functions of their arguments")
 			return E.pureResult(fr, st, "apply$"+sanitize(cc.Signature().String()), cc.Signature().Results(), append([]Val{c}, args...), nil)
@@ -155,6 +158,53 @@ func (E *Engine) call(fr *Frame, st *State, cc *ssa.CallCommon, instr ssa.Instru
 	}
 	E.fail("call through %T", x)
 	return nil
+}
+
+// callThroughIte: the called value is a choice between statically known functions (a function-typed
+// variable assigned in the branches of an if): the call is executed once per alternative, each under
+// its condition, and the outcomes are joined.
+func (E *Engine) callThroughIte(fr *Frame, st *State, c *Term, args []Val, instr ssa.Instruction) (Val, bool) {
+	if c.op != "ite" {
+		return nil, false
+	}
+	var resolvable func(t *Term, depth int) bool
+	resolvable = func(t *Term, depth int) bool {
+		if _, ok := E.closureByRef[t]; ok {
+			return true
+		}
+		return t.op == "ite" && depth < 4 && resolvable(t.args[1], depth+1) && resolvable(t.args[2], depth+1)
+	}
+	if !resolvable(c, 0) {
+		return nil, false
+	}
+	cond := c.args[0]
+	var outs []*State
+	var guards []*Term
+	var vals []Val
+	for i, alt := range []*Term{c.args[1], c.args[2]} {
+		g := cond
+		if i == 1 {
+			g = E.tb.Not(cond)
+		}
+		sub := st.clone()
+		sub.reach = E.tb.And(st.reach, g)
+		var v Val
+		if cl, ok := E.closureByRef[alt]; ok {
+			v = E.callFn(fr, sub, cl.fn, args, cl.bind, instr)
+		} else {
+			v, _ = E.callThroughIte(fr, sub, alt, args, instr)
+		}
+		outs = append(outs, sub)
+		guards = append(guards, sub.reach)
+		vals = append(vals, v)
+	}
+	merged := E.mergeStates(outs, guards)
+	merged.reach = E.tb.Or(guards...)
+	E.setState(st, merged)
+	if vals[0] == nil {
+		return nil, true
+	}
+	return E.iteVal(E.tb.And(cond), vals[0], vals[1]), true
 }
 
 var noEffectMethods = map[string]bool{"Lock": true, "Unlock": true, "RLock": true, "RUnlock": true}
@@ -525,6 +575,10 @@ func (E *Engine) callFn(fr *Frame, st *State, fn *ssa.Function, args []Val, bind
 		return E.summarise(fr, st, body, tenv, args, res)
 	}
 	if len(body.Blocks) == 0 {
+		if E.P.pureFns[org] {
+			E.note("declared pure (//verif:pure): " + shortName(name) + " has no effect and returns a function of its arguments")
+			return E.pureResult(fr, st, name, res, args, instr)
+		}
 		return E.external(fr, st, fn, name, args, instr)
 	}
 	ghostPure := fr.ghost && E.P.pureFns[org] && fr.proveTarget != org // specification text naming a pure function: no effects
